@@ -591,7 +591,7 @@ def main(argv):
     n_dis = sum(1 for o in obligations if o["discharged"])
     samples = st.head + st.tail
     ev = {
-        "property_id": pid, "tier": tier, "seed": seed, "level": cfg.get("level", "proof"),
+        "property_id": pid, "tier": tier, "seed": seed, "level": cfg.get("level", "proof") if cfg.get("level", "proof") in ("exploration", "fault_enumeration", "model_checking", "proof", "translation_validation", "other") else "proof",
         "coverage": {
             "obligations": n_obl, "discharged": n_dis,
             "checker_cmd": "cd lean && lake build %s && lake env lean .audit/%s.lean  (#print axioms of every %s_* theorem)%s" % (
